@@ -172,6 +172,19 @@ def _repl_tok(line, j, new):
     return "".join(parts)
 
 
+def _keep_toks(line, j):
+    """the line up to the end of its j-th token"""
+    parts = re.split(r"(\s+)", line.rstrip("\n"))
+    out, n = [], 0
+    for p in parts:
+        if p and not p.isspace():
+            n += 1
+        out.append(p)
+        if n == j and p and not p.isspace():
+            break
+    return "".join(out)
+
+
 def constrained_tokens(fmt, lx):
     """indices of the tokens of a line whose vocabulary is closed (an invalid token exists)"""
     k = lx["k"]
@@ -256,6 +269,30 @@ class Damager:
                 i, j, new = r[1], r[2], r[3]
                 lines[i - 1] = _repl_tok(lines[i - 1], j, new)
                 ops.append({"op": "repl", "i": i, "line": lex(self.fmt, lines[i - 1])})
+            elif op == "droptok":                        # token j of line i is lost (the later columns shift left)
+                i, j = r[1], r[2]
+                lines[i - 1] = _repl_tok(lines[i - 1], j, "")
+                ops.append({"op": "repl", "i": i, "line": lex(self.fmt, lines[i - 1])})
+            elif op == "trunc":                          # line i is cut short after its j-th token, the rest of the text stays
+                i, j = r[1], r[2]
+                nl = "\n" if lines[i - 1].endswith("\n") else ""
+                lines[i - 1] = _keep_toks(lines[i - 1], j) + nl
+                ops.append({"op": "repl", "i": i, "line": lex(self.fmt, lines[i - 1])})
+            elif op == "cutmid":                         # the TEXT ends after the j-th token of line i
+                i, j = r[1], r[2]
+                frag = _keep_toks(lines[i - 1], j)
+                lines = lines[:i - 1] + [frag]
+                ops.append({"op": "cut", "i": i, "line": BLANK})
+                ops.append({"op": "repl", "i": i, "line": lex(self.fmt, frag)})
+            elif op in ("bset", "bins"):                 # byte level: overwrite / insert bytes at offset r[1] of the FILE
+                assert lines == self.lines and len(recipe) == 1
+                raw = self.text.encode("utf-8")
+                new = bytes.fromhex(r[2])
+                data = raw[:r[1]] + new + raw[r[1] + (len(new) if op == "bset" else 0):]
+                i = raw[:r[1]].count(b"\n") + 1
+                dl = data.split(b"\n")[i - 1].decode("utf-8", errors="replace")
+                ops.append({"op": "repl", "i": i, "line": lex(self.fmt, dl)})
+                return data, ops
             elif op == "set":                            # whole line i -> new text
                 i, new = r[1], r[2]
                 nl = "\n" if lines[i - 1].endswith("\n") else ""
@@ -296,6 +333,52 @@ class Damager:
                 # of an optional block leaves a well-formed text that no reader can tell from the original)
                 out.append([["set", i, "@<TRIPOS>" + lx["t"] + "X"]])
                 out.append([["set", i, "@<TRIPOS>" + lx["t"][:-1]]] if len(lx["t"]) > 1 else [["set", i, "@<TRIPOS>Q"]])
+        return out
+
+    def record_lines(self):
+        """1-based indices of the record lines (atom / bond / integer lines) of the text"""
+        return [i + 1 for i, l in enumerate(self.L) if l["k"] in ("atom", "bond", "ints") and l["nt"] >= 2 or
+                (self.fmt == "xyz" and l["k"] == "ints")]
+
+    def token_level(self, idx, cutmid=True):
+        """every single token of a record line lost; the line (and, separately, the whole text) cut short after each token"""
+        out = []
+        for i in idx:
+            nt = self.L[i - 1]["nt"]
+            out += [[["droptok", i, j]] for j in range(nt)]
+            out += [[["trunc", i, j]] for j in range(1, nt)]
+            if cutmid:
+                out += [[["cutmid", i, j]] for j in range(1, nt)]
+        return out
+
+    def byte_level(self, n, rnd: random.Random):
+        """invalid UTF-8 bytes written over / inserted into multi-character tokens of record, count and tag lines
+        (and atom labels), a valid two-byte character inserted into closed-vocabulary tokens"""
+        raw = self.text.encode("utf-8")
+        spots, off = [], 0
+        for li, line in enumerate(self.lines):
+            lx = self.L[li]
+            if lx["k"] in ("atom", "bond", "ints", "tag"):
+                closed = set(constrained_tokens(self.fmt, lx))
+                for tj, m in enumerate(re.finditer(r"\S+", line)):
+                    if len(m.group()) >= 2:
+                        b0 = off + len(line[:m.start()].encode("utf-8"))
+                        # a valid non-ASCII character is damage only where the vocabulary is closed as a whole: numbers
+                        # and tags (the sub-type part of an atom type is open: unknown sub-types are read as the bare element)
+                        numeric = tj in closed and (_isint(m.group()) or _isfloat(m.group()) or
+                                                   (lx["k"] == "tag" and lx["t"] in ("MOLECULE", "ATOM", "BOND")))
+                        spots.append((b0, len(m.group().encode("utf-8")), numeric))
+            off += len(line.encode("utf-8"))
+        out = []
+        if not spots:
+            return out
+        for b0, ln, closed in (rnd.sample(spots, n) if len(spots) > n else spots):
+            p = b0 + rnd.randint(1, ln - 1)                  # strictly inside the token
+            q = b0 + rnd.randint(0, ln - 1)
+            out.append([["bset", q, rnd.choice(["ff", "80", "fe"])]])
+            out.append([["bins", p, rnd.choice(["ff", "80", "c0"])]])
+            if closed:
+                out.append([["bins", p, "c3a9"]])
         return out
 
     def count_changes(self):
